@@ -48,7 +48,7 @@ def scenarios(rng, n):
 def run(ctx):
     quick = ctx.tier == "quick"
     rng = random.Random(ctx.seed)
-    n = 300 if quick else 6000
+    n = 300 if quick else 20000
     ctx.rule = ("%d seeded recipes x 2-4 forced/seeded paths on the REAL library with fds 1 and 2 captured around NewWordList, Alphabet, Entropy, "
                 "SuccessProbability and Generate: distinctive (Greek/CJK/private-use) alphabets with requirements (retried and exhausted attempt budgets), ASCII "
                 "class recipes on the default budget incl. the all-attempts-fail path, refused and impossible recipes (which emit diagnostics), word lists of "
